@@ -630,6 +630,8 @@ def check(run, prog):
     rule_operator_spacing(run, prog)         # R-2.9
     from .c02_filetype import rule_file_kind
     rule_file_kind(run, prog)                # R-2.10
+    from .snippet_rules import rule_vla_sizes
+    rule_vla_sizes(run, prog)                # R-2.11
 
 
 def _ancestors(n):
